@@ -446,12 +446,14 @@ impl<C: CellType> OptRebuild<'_, C> {
     ) {
         let mut knowns = SmallVec::<_, 1>::with_capacity(calcs.size_hint().0);
         for (var, calc) in calcs {
-            // Special check to avoid overly large expressions.
+            // Special check to avoid overly large expressions. The evaluated
+            // expression refers to earlier written ones and must be bounded too.
             if calc.as_ref().op_count() < 32 {
-                if let Some(calc) = self.eval_written(calc) {
-                    knowns.push((var, OptWrite::Known(calc)));
-                } else {
-                    knowns.push((var, OptWrite::Unknown));
+                match self.eval_written(calc) {
+                    Some(calc) if calc.op_count() < 32 => {
+                        knowns.push((var, OptWrite::Known(calc)));
+                    }
+                    _ => knowns.push((var, OptWrite::Unknown)),
                 }
             } else {
                 knowns.push((var, OptWrite::Unknown));
